@@ -47,6 +47,9 @@ pub fn bases() -> Vec<Base> {
         Base { name: "int-min-to-upper-ext", template: "T ::= INTEGER (MIN..{0},...)", sites: vec![int("9", "range-upper")] },
         Base { name: "int-min-to-upper", template: "T ::= INTEGER (MIN..{0})", sites: vec![int("9", "range-upper")] },
         Base { name: "int-upper-i64max", template: "T ::= INTEGER ({0}..{1})", sites: vec![int("1", "range-lower"), int("9223372036854775807", "range-upper-i64max")] },
+        // a component of a type that no loaded module defines (imported from a module that is not part of the
+        // conversion): its DEFAULT and its neighbours resolve like the literals all the same
+        Base { name: "default-of-unknown-type", template: "T ::= SEQUENCE { prio Priority DEFAULT {0}, n INTEGER (0..{1}) DEFAULT {2}, s Label OPTIONAL }", sites: vec![int("3", "default-integer"), int("9", "range-upper"), int("4", "default-integer")] },
         Base { name: "size-range", template: "T ::= OCTET STRING (SIZE({0}..{1}))", sites: vec![int("1", "size-lower"), int("4", "size-upper")] },
         Base { name: "size-range-zero", template: "T ::= IA5String (SIZE({0}..{1}))", sites: vec![int("0", "size-lower-zero"), int("9", "size-upper")] },
         Base { name: "size-range-equal", template: "T ::= UTF8String (SIZE({0}..{1}))", sites: vec![int("6", "size-lower-equal"), int("6", "size-upper-equal")] },
@@ -81,9 +84,12 @@ pub enum Placement {
     SiblingByNameWithDifferentlySpelledOid,
     /// imported by name while an unrelated module (other name, no OID) defines the same names with other values
     SiblingByNameWithUnrelatedModule,
+    /// imported by an OID written with name-only components ({ iso standard 4242 }) while a module of another name,
+    /// whose OID differs in the name-only components only ({ itu-t recommendation 4242 }), defines other values
+    SiblingByNameFormOidWithDecoy,
 }
 
-pub const PLACEMENTS: [Placement; 8] = [
+pub const PLACEMENTS: [Placement; 9] = [
     Placement::LocalBefore,
     Placement::LocalAfter,
     Placement::SiblingByName,
@@ -92,6 +98,7 @@ pub const PLACEMENTS: [Placement; 8] = [
     Placement::LocalShadowsImported,
     Placement::SiblingByNameWithDifferentlySpelledOid,
     Placement::SiblingByNameWithUnrelatedModule,
+    Placement::SiblingByNameFormOidWithDecoy,
 ];
 
 fn fill(t: &str, vals: &[String]) -> String {
@@ -168,6 +175,11 @@ fn build_plain(base: &Base, replaced: &[usize], p: Placement) -> Vec<(String, St
             ("Main".into(), format!("Main {header}\nIMPORTS {} FROM Sib;\n{body}\nEND\n", names.join(", "))),
             ("Sib".into(), format!("Sib {header}\n{}END\n", defs(false))),
             ("Unrelated".into(), format!("Unrelated {header}\n{}END\n", defs(true))),
+        ],
+        Placement::SiblingByNameFormOidWithDecoy => vec![
+            ("Main".into(), format!("Main {header}\nIMPORTS {} FROM Sib {{ iso standard 4242 }};\n{body}\nEND\n", names.join(", "))),
+            ("Sib".into(), format!("Sib {{ iso standard 4242 }} {header}\n{}END\n", defs(false))),
+            ("Legacy".into(), format!("Legacy {{ itu-t recommendation 4242 }} {header}\n{}END\n", defs(true))),
         ],
         Placement::LocalShadowsImported => vec![
             // the local definition is the one in scope; the imported module carries a different value
@@ -373,7 +385,7 @@ pub fn run(args: &Args) -> ! {
     for (k, (n, f)) in agg {
         report.merge(k, n, f);
     }
-    let resolutions: u64 = work.iter().map(|w| match w.placement { Placement::SiblingByOidWithDecoy | Placement::SiblingByNameWithUnrelatedModule => 6, Placement::LocalBefore | Placement::LocalAfter => 1, _ => 2 }).sum();
+    let resolutions: u64 = work.iter().map(|w| match w.placement { Placement::SiblingByOidWithDecoy | Placement::SiblingByNameWithUnrelatedModule | Placement::SiblingByNameFormOidWithDecoy => 6, Placement::LocalBefore | Placement::LocalAfter => 1, _ => 2 }).sum();
     let mut cov = Map::new();
     cov.insert("exhaustive".into(), json!(true));
     cov.insert("evaluations".into(), json!(resolutions + neg_evals));
@@ -384,7 +396,7 @@ pub fn run(args: &Args) -> ! {
     cov.insert("bases".into(), json!(bs.iter().map(|b| json!({"base": b.name, "sites": b.sites.len(), "template": b.template})).collect::<Vec<_>>()));
     cov.insert("max_sites_replaced".into(), json!(if thorough { 5 } else { 2 }));
     cov.insert("negative_cases".into(), json!(neg_evals));
-    cov.insert("rule".into(), json!("for every base schema (18 templates covering INTEGER lower/upper bounds incl. 0 and i64::MAX next to MAX, SIZE lower/upper/fixed/equal/extensible in both spellings and on SEQUENCE OF / SET OF, DEFAULT of INTEGER/BOOLEAN/string, nested types): every subset of <= 2 (quick) / all (thorough) literal sites is replaced by a fresh value reference; the value definitions are placed {in the same module before / after use, in a sibling imported by name, in a sibling imported by OID, in a sibling imported by OID while a decoy module of the same name with another OID and other values is loaded too, locally while an import of the same name carries another value, in a sibling whose OID the import spells differently (matched by name), in a sibling imported by name while an unrelated module without OID defines the same names with other values}; every permutation of the load order through MultiModuleResolver::try_resolve_all. The projection of the importing module must equal that of the all-literal module. Negative: undefined / not exported / BOOLEAN or string where an integer is needed => resolve error"));
+    cov.insert("rule".into(), json!("for every base schema (25 templates covering INTEGER lower/upper bounds incl. 0 and i64::MAX next to MAX, SIZE lower/upper/fixed/equal/extensible in both spellings and on SEQUENCE OF / SET OF, DEFAULT of INTEGER/BOOLEAN/string, nested types): every subset of <= 2 (quick) / all (thorough) literal sites is replaced by a fresh value reference; the value definitions are placed {in the same module before / after use, in a sibling imported by name, in a sibling imported by OID, in a sibling imported by OID while a decoy module of the same name with another OID and other values is loaded too, locally while an import of the same name carries another value, in a sibling whose OID the import spells differently (matched by name), in a sibling imported by name while an unrelated module without OID defines the same names with other values, in a sibling imported by an OID of name-only components while a module whose OID differs only in those components defines other values}; every permutation of the load order through MultiModuleResolver::try_resolve_all. The projection of the importing module must equal that of the all-literal module. Negative: undefined / not exported / BOOLEAN or string where an integer is needed => resolve error"));
     cov.insert("samples".into(), json!([build(&bs[0], &[0, 1], Placement::SiblingByOidWithDecoy).iter().map(|m| m.1.clone()).collect::<Vec<_>>(), negs[0].1[0].1]));
     report.finish(cov, vec!["comparison through the C07 projection (public fields only)".into()])
 }
